@@ -114,6 +114,8 @@ def register(reg):
     ))
     register2(reg)
     register3(reg)
+    register_step(reg)
+    _step_lemmas(reg)
 
 
 # ---- convert_kwargs / apply_scaling -----------------------------------------------------------------
@@ -215,6 +217,9 @@ def _as_post(result, vals, fct, kwargs):
             out['values'] = Forall(0, n, lambda i: Implies(_nonnan(vals, i), _rv(result[i]) == (_rv(vals[i]) - sh) / sc))
         else:
             out['values'] = Forall(0, n, lambda i: Implies(_nonnan(vals, i), _rv(result[i]) == _rv(vals[i]) * sc + sh))
+    elif fct == 'step-scale':
+        f = step_do if mode == 'do' else step_undo
+        out['values'] = Forall(0, n, lambda i: Implies(_nonnan(vals, i), _rv(result[i]) == f(_rv(vals[i]), kwargs['steps'], kwargs['scales'])))
     elif fct == 'minmax-scale' and mode == 'do' and not ('min_val' in kwargs and 'max_val' in kwargs):
         # derived interval contains the data and honours min_range: image inside [0, 1] (lemma prop.C19.mm.minrange)
         out['into_unit_interval'] = Forall(0, n, lambda i: Implies(_nonnan(vals, i), And(_rv(result[i]) >= 0, _rv(result[i]) <= 1)))
@@ -224,8 +229,12 @@ def _as_post(result, vals, fct, kwargs):
 def _as_raises(vals, fct, kwargs):
     if fct is None:
         return False
-    # refused exactly when convert_kwargs refuses -- unless everything is NaN (passthrough comes first)
-    return Exists(0, ln(vals), lambda i: _nonnan(vals, i)) if _ck_raises(vals, fct, kwargs) else False
+    # refused exactly when convert_kwargs (or the step scaling itself) refuses -- unless everything is NaN (passthrough comes first)
+    some = Exists(0, ln(vals), lambda i: _nonnan(vals, i))
+    if fct == 'step-scale' and not _ck_raises(vals, fct, kwargs):
+        r = _ss_raises(vals, kwargs['steps'], kwargs['scales'], kwargs.get('mode', 'do'))
+        return False if r is False else (some if r is True else Exists(0, ln(vals), lambda i: And(_nonnan(vals, i), r)))
+    return some if _ck_raises(vals, fct, kwargs) else False
 
 
 def register3(reg):
@@ -237,6 +246,8 @@ def register3(reg):
         'shift-and-scale': [{'scale': F_()}, {'scale': F_(), 'mode': 'do'}, {'scale': F_(), 'shift': G_()}, {'scale': F_(), 'shift': G_(), 'mode': 'undo'},
                             {'scale': F_(), 'mode': 'undo'}],
         'minmax-scale': [{'min_range': F_()}, {'mode': 'do', 'min_range': F_()}, {'mode': 'undo'}],
+        'step-scale': [{'steps': FloatList(2, 'steps'), 'scales': FloatList(3, 'scales', lo=0)},
+                       {'steps': FloatList(1, 'steps'), 'scales': FloatList(2, 'scales', lo=0), 'mode': 'undo'}],
         'nonsense': [{}],
     }.items():
         for sh in shapes:
@@ -248,3 +259,169 @@ def register3(reg):
         raises={'AmpycloudError': _as_raises},
         ensures=_as_post,
     ))
+
+
+# ---- step_scale ---------------------------------------------------------------------------------------
+# The property's own quantifier bounds the step lists: "sorted step lists of length 0..4 with positive scales".  Each length
+# is one case with symbolic step / scale values; the value array has symbolic length.
+
+MAX_STEPS = 4
+
+
+class FloatList(Spec):
+    """Python list of k floats (k concrete), symbolic values"""
+
+    def __init__(self, k, prefix, lo=None):
+        self.k, self.prefix, self.lo = k, prefix, lo
+
+    def make(self, name, ctx):
+        out, ts = [], []
+        for j in range(self.k):
+            t = z3.Real(f'{self.prefix}_{j}')
+            if self.lo is not None:
+                ctx.assume(t > self.lo)
+            out.append(SFloat(t, False, 'float'))
+            ts.append(t)
+        ctx.extractors[name] = (lambda m, ts=ts: [smt.z3val_to_py(m.eval(t, model_completion=True)) for t in ts])
+        return out
+
+    def sample(self, rng):
+        if self.prefix == 'scales':
+            return [rng.choice([1.0, 2.0, 10.0, 100.0, 500.0, 0.5, rng.uniform(0.1, 1000)]) for _ in range(self.k)]
+        xs = sorted(rng.choice([0.0, 10.0, 50.0, 8000.0, 14000.0, rng.uniform(-10, 100), rng.uniform(0, 20000)]) for _ in range(self.k))
+        if rng.random() < 0.15 and len(xs) > 1:
+            xs.reverse()
+        return xs
+
+    def describe(self):
+        return f'list of {self.k} floats'
+
+
+def _lower(steps, s):
+    return 0 if s == 0 else _rv(steps[s - 1])
+
+
+def _cum(steps, scales, s):
+    """scaled position of the lower edge of bin s: the widths of the bins below it, each divided by its own scale (bin 0 is
+    measured from 0)"""
+    c = 0
+    for j in range(s):
+        c = c + (_rv(steps[j]) - _lower(steps, j)) / _rv(scales[j])
+    return c
+
+
+def step_do(v, steps, scales):
+    """spec (from the docstring): a value in bin s -- steps[s-1] <= v < steps[s], open-ended below / above -- is measured from
+    the lower edge of its bin, divided by scales[s], and shifted so that the scaled bins join without gap or overlap"""
+    L = len(steps)
+    out = None
+    for s in range(L, -1, -1):
+        val = (v - _lower(steps, s)) / _rv(scales[s]) + _cum(steps, scales, s)
+        out = val if out is None else z3.If(v < _rv(steps[s]), val, out)
+    return out
+
+
+def step_undo(w, steps, scales):
+    L = len(steps)
+    out = None
+    for s in range(L, -1, -1):
+        val = (w - _cum(steps, scales, s)) * _rv(scales[s]) + _lower(steps, s)
+        out = val if out is None else z3.If(w < _cum(steps, scales, s + 1), val, out)
+    return out
+
+
+def _ss_pre(vals, steps, scales, mode):
+    return {'scales_positive': And(*[_rv(x) > 0 for x in scales]) if scales else True}
+
+
+def _ss_raises(vals, steps, scales, mode):
+    if len(steps) != len(scales) - 1:
+        return True
+    if mode not in ('do', 'undo'):
+        return True
+    return Or(*[_rv(steps[j + 1]) < _rv(steps[j]) for j in range(len(steps) - 1)]) if len(steps) > 1 else False
+
+
+def _ss_post(result, vals, steps, scales, mode):
+    n = ln(vals)
+    f = step_do if mode == 'do' else step_undo
+    val = lambda i: f(_rv(vals[i]), steps, scales)
+    mn = lambda: None
+    inv_min = None          # 1 / (largest scale) and 1 / (smallest scale) bound the slope of every bin
+    out = {'len': ln(result) == n,
+           'nan_blind': Forall(0, n, lambda i: _isnan(result[i]) == _isnan(vals[i])),
+           'values': Forall(0, n, lambda i: Implies(_nonnan(vals, i), _rv(result[i]) == val(i))),
+           }
+    # order-preserving: two values are never reversed (distinct values stay distinct).  Proved from the element-wise
+    # characterisation (cut) and the lemma "the spec function is strictly increasing" instantiated at the two values
+    sorted_steps = And(*[_rv(steps[j]) <= _rv(steps[j + 1]) for j in range(len(steps) - 1)]) if len(steps) > 1 else True
+    pos = And(*[_rv(x) > 0 for x in scales])
+    lname = f'prop.C19.step.{mode}.mono.L{len(steps)}'
+
+    def mono_at(i, k):
+        a, b = _rv(vals[i]), _rv(vals[k])
+        return And(Implies(And(pos, sorted_steps, a < b), f(a, steps, scales) < f(b, steps, scales)),
+                   Implies(And(pos, sorted_steps, b < a), f(b, steps, scales) < f(a, steps, scales)))
+    out['order_preserving'] = Sequent(
+        [Forall(0, n, lambda i: Implies(_nonnan(vals, i), _rv(result[i]) == val(i))), sorted_steps, pos, smt.LemmaInst(lname, mono_at)],
+        Forall(0, n, lambda i, k: Implies(And(_nonnan(vals, i), _nonnan(vals, k)), And(
+            Implies(_rv(vals[i]) < _rv(vals[k]), _rv(result[i]) < _rv(result[k])),
+            Implies(_rv(vals[k]) < _rv(vals[i]), _rv(result[k]) < _rv(result[i])),
+            Implies(_rv(vals[i]) == _rv(vals[k]), _rv(result[i]) == _rv(result[k])))), arity=2),
+        isolate=True)
+    return out
+
+
+def register_step(reg):
+    arr = ArrOf('float')
+    cases = []
+    for L in range(0, MAX_STEPS + 1):
+        for m in ('do', 'undo'):
+            cases.append((f'L={L},{m}', {'vals': arr, 'steps': FloatList(L, 'steps'), 'scales': FloatList(L + 1, 'scales'), 'mode': Const(m)}))
+    cases.append(('bad-mode', {'vals': arr, 'steps': FloatList(1, 'steps'), 'scales': FloatList(2, 'scales'), 'mode': Const('x')}))
+    cases.append(('length-mismatch', {'vals': arr, 'steps': FloatList(2, 'steps'), 'scales': FloatList(2, 'scales'), 'mode': Const('do')}))
+    reg.add(Contract(
+        'ampycloud.scaler.step_scale', properties=('C19',),
+        cases=cases,
+        requires=_ss_pre,
+        result=lambda name, ctx, vals, **kw: _fresh_like(vals, 'ss'),
+        raises={'AmpycloudError': _ss_raises},
+        native_call=lambda vals, steps, scales, mode: __import__('ampycloud').scaler.step_scale(vals, steps, scales, mode=mode),
+        ensures=_ss_post,
+        canaries={'identity': lambda result, vals, steps, scales, mode: Forall(0, ln(vals), lambda i: Implies(_nonnan(vals, i), _rv(result[i]) == _rv(vals[i])))},
+    ))
+
+
+def _step_lemmas(reg):
+    from pyvc.contracts import Lemma
+
+    def mk(L, mode, what):
+        def make():
+            steps = [SFloat(smt.fresh_real(f'st{j}'), False) for j in range(L)]
+            scales = [SFloat(smt.fresh_real(f'sc{j}'), False) for j in range(L + 1)]
+            a, b = smt.fresh_real('a'), smt.fresh_real('b')
+            hy = [_rv(x) > 0 for x in scales] + [_rv(steps[j]) <= _rv(steps[j + 1]) for j in range(L - 1)]
+            f = step_do if mode == 'do' else step_undo
+            if what == 'mono':
+                return hy + [a < b], f(a, steps, scales) < f(b, steps, scales)
+            if what == 'inverse':          # undoing the scaling restores the value (and the other way round)
+                g = step_undo if mode == 'do' else step_do
+                return hy, g(f(a, steps, scales), steps, scales) == a
+            if what == 'edges':
+                # continuity across the steps: at every step edge the affine piece of the bin below reaches exactly the value of
+                # the bin above (no gap, no overlap); inside a bin the function is affine, hence continuous
+                if mode == 'do':
+                    return hy, And(*[(_rv(steps[s]) - _lower(steps, s)) / _rv(scales[s]) + _cum(steps, scales, s) == f(_rv(steps[s]), steps, scales)
+                                     for s in range(L)]) if L else z3.BoolVal(True)
+                return hy, And(*[(_cum(steps, scales, s + 1) - _cum(steps, scales, s)) * _rv(scales[s]) + _lower(steps, s) ==
+                                 f(_cum(steps, scales, s + 1), steps, scales) for s in range(L)]) if L else z3.BoolVal(True)
+            raise ValueError(what)
+        return make
+    for L in range(0, MAX_STEPS + 1):
+        for mode in ('do', 'undo'):
+            reg.add_lemma(Lemma(f'prop.C19.step.{mode}.mono.L{L}', direct=mk(L, mode, 'mono'), properties=('C19',),
+                                doc=f'step-scale spec function ({mode}, {L} steps) is strictly increasing'))
+            reg.add_lemma(Lemma(f'prop.C19.step.{mode}.inverse.L{L}', direct=mk(L, mode, 'inverse'), properties=('C19',),
+                                doc=f'step-scale ({L} steps): the opposite mode applied to the {mode} result restores the value'))
+            reg.add_lemma(Lemma(f'prop.C19.step.{mode}.continuous.L{L}', direct=mk(L, mode, 'edges'), properties=('C19',),
+                                doc=f'step-scale spec function ({mode}, {L} steps) has no jump at any step edge (left piece meets the right value)'))
